@@ -90,6 +90,8 @@ PENDING = {
         "ravel()/reshape(-1) of an n-d array whose first axis has an interior empty chunk: 'cannot reshape array of size 0 into shape (k,)' (reached through unique/argwhere/flatnonzero/nonzero/compress(axis=None))",
     "ravel:zero-length&nd>1:Error@array/reshape.py:reshape_rechunk":
         "ravel() of an n-d array with a zero-length axis and another axis in several chunks: reduce() of empty iterable in reshape_rechunk",
+    "ravel:empty-chunk&nd>1:Error@array/reshape.py:reshape_rechunk":
+        "ravel() of a 3-d array of shape (1, 1, 1) whose first axis is chunked (0, 1): IndexError 'tuple index out of range' in reshape_rechunk",
     "searchsorted:empty-chunk&v-nd>1:ValueError@array/core.py:concatenate3":
         "searchsorted with n-d v that has empty chunks: out.max(axis=0) fails in concatenate3 (could not broadcast input array)",
     "searchsorted:empty-chunk&v-nd>1:shape": "same mechanism, wrong result shape instead of an exception",
@@ -538,8 +540,10 @@ def _run(case, ctx):
         if who == "ravel":
             # the exception site names the mechanism (reshape of an n-d input); an empty chunk on a short axis is an
             # empty chunk like any other here
-            if "zero-length" in fl:      # TypeError or IndexError from the same loop over an empty chunk product
-                feat, sym = "zero-length&nd>1", sym.split("@")[0].replace("TypeError", "Error").replace("IndexError", "Error") + "@" + sym.split("@")[-1]
+            if sym.endswith("@array/reshape.py:reshape_rechunk"):
+                sym = "Error@array/reshape.py:reshape_rechunk"      # TypeError or IndexError while planning the reshape
+            if "zero-length" in fl:
+                feat = "zero-length&nd>1"
             else:
                 dom = sorted({"empty-chunk" if f == "short-axis-split" else f for f in fl if f in DOMAIN})
                 feat = "&".join(dom + ["nd>1"])
